@@ -185,6 +185,23 @@ func altWrite(c *fw.Ctx, ext string, sub *astisub.Subtitles, ref []byte) string 
 	return ""
 }
 
+// outPath prepares the place a CLI or Write case writes to: a fresh path, a path that already holds a much longer
+// file (which has to be replaced as a whole, not overwritten in part), or - when the caller allows it - the input
+// path itself (converting a file in place)
+func outPath(r *fw.Rand, in, fresh string) string {
+	switch r.Intn(3) {
+	case 1:
+		os.WriteFile(fresh, []byte(strings.Repeat("9\n99:59:58,000 --> 99:59:59,000\nleft over from an earlier, longer file\n\n", 400)), 0o644)
+		return fresh
+	case 2:
+		if in != "" {
+			return in
+		}
+	}
+	os.Remove(fresh)
+	return fresh
+}
+
 // listSize draws a list length: mostly small (0..small), now and then long, now and then right at the sizes where a
 // size-dependent code path would switch (insertion sort -> quick sort at 12, chunking or searching at 64/256/1024)
 func listSize(r *fw.Rand, small int) int {
